@@ -32,6 +32,10 @@ theorem getD_mem_qpc {β : Type} (l : List β) (d : β) (i : Nat) (h : i < l.len
   rw [List.getD_eq_getElem?_getD, List.getElem?_eq_getElem h]
   simp
 
+theorem getD_eq_getElem_qpc {β : Type} (l : List β) (d : β) (i : Nat) (h : i < l.length) :
+    l.getD i d = l[i] := by
+  rw [List.getD_eq_getElem?_getD, List.getElem?_eq_getElem h, Option.getD_some]
+
 theorem zipIdx_map_getD_qpc {β γ : Type} (l : List β) (F : β × Nat → γ) (i : Nat)
     (hi : i < l.length) (d : γ) (d0 : β) :
     (l.zipIdx.map F).getD i d = F (l.getD i d0, i) := by
@@ -94,5 +98,764 @@ theorem elimStep_none_qpc (rows : List (List α)) (col r : Nat)
   unfold elimStep
   rw [h]
 
+theorem stepRows_length_qpc (rows : List (List α)) (col r : Nat) (prow : List α) (pi : Nat) :
+    (stepRows_qpc rows col r prow pi).length = rows.length := by
+  simp [stepRows_qpc]
+
+/-- row `i` of the swapped matrix -/
+theorem swapRows_getD_qpc (rows : List (List α)) (r pi : Nat) (prow' : List α) (i : Nat)
+    (hi : i < rows.length) :
+    (rows.zipIdx.map fun (p : List α × Nat) =>
+      if p.2 = r then prow' else if p.2 = pi then rows.getD r [] else p.1).getD i [] =
+      if i = r then prow' else if i = pi then rows.getD r [] else rows.getD i [] := by
+  rw [zipIdx_map_getD_qpc _ _ i hi [] []]
+
+theorem stepRows_getD_qpc (rows : List (List α)) (col r : Nat) (prow : List α) (pi : Nat) (i : Nat)
+    (hi : i < rows.length) :
+    (stepRows_qpc rows col r prow pi).getD i [] =
+      if i = r then prow.map (· / prow.getD col 0)
+      else List.zipWith
+        (fun a b => a - (if i = pi then rows.getD r [] else rows.getD i []).getD col 0 * b)
+        (if i = pi then rows.getD r [] else rows.getD i []) (prow.map (· / prow.getD col 0)) := by
+  unfold stepRows_qpc
+  rw [zipIdx_map_getD_qpc _ _ i (by simpa using hi) [] [], swapRows_getD_qpc rows r pi _ i hi]
+  by_cases h : i = r
+  · simp [h]
+  · simp only [h, if_false]
+
+theorem map_div_getD_qpc (l : List α) (c : α) (j : Nat) :
+    (l.map (· / c)).getD j 0 = l.getD j 0 / c := by
+  simp only [List.getD_eq_getElem?_getD, List.getElem?_map]
+  cases l[j]? <;> simp
+
+theorem zipWith_getD_qpc (f : α → α → α) (a b : List α) (j : Nat) (ha : j < a.length)
+    (hb : j < b.length) : (List.zipWith f a b).getD j 0 = f (a.getD j 0) (b.getD j 0) := by
+  simp [List.getD_eq_getElem?_getD, List.getElem?_zipWith, List.getElem?_eq_getElem ha,
+    List.getElem?_eq_getElem hb]
+
+theorem stepRows_ent_qpc (rows : List (List α)) (n col r pi : Nat)
+    (hlen : ∀ row ∈ rows, row.length = n + 1) (hr : r ≤ pi) (hpi : pi < rows.length) (i j : Nat)
+    (hi : i < rows.length) (hj : j < n + 1) :
+    ent_qpc (stepRows_qpc rows col r (rows.getD pi []) pi) i j =
+      if i = r then ent_qpc rows pi j / ent_qpc rows pi col
+      else (if i = pi then ent_qpc rows r j else ent_qpc rows i j) -
+        (if i = pi then ent_qpc rows r col else ent_qpc rows i col) *
+          (ent_qpc rows pi j / ent_qpc rows pi col) := by
+  have hl : ∀ k, k < rows.length → (rows.getD k []).length = n + 1 :=
+    fun k hk => hlen _ (getD_mem_qpc rows [] k hk)
+  rw [ent_qpc, stepRows_getD_qpc rows col r _ pi i hi]
+  by_cases h : i = r
+  · simp only [h, if_true]
+    rw [map_div_getD_qpc]
+    rfl
+  · simp only [h, if_false]
+    rw [zipWith_getD_qpc _ _ _ j
+      (by by_cases h2 : i = pi <;> simp only [h2, if_true, if_false] <;> rw [hl _ (by omega)] <;> exact hj)
+      (by rw [List.length_map, hl _ hpi]; exact hj), map_div_getD_qpc]
+    by_cases h2 : i = pi <;> simp only [h2, if_true, if_false] <;> rfl
+
+theorem stepRows_rowlen_qpc (rows : List (List α)) (n col r pi : Nat)
+    (hlen : ∀ row ∈ rows, row.length = n + 1) (hr : r ≤ pi) (hpi : pi < rows.length) :
+    ∀ row ∈ stepRows_qpc rows col r (rows.getD pi []) pi, row.length = n + 1 := by
+  have hl : ∀ k, k < rows.length → (rows.getD k []).length = n + 1 :=
+    fun k hk => hlen _ (getD_mem_qpc rows [] k hk)
+  intro row hrow
+  obtain ⟨i, hi, rfl⟩ := List.mem_iff_getElem.mp hrow
+  have hi' : i < rows.length := by rwa [stepRows_length_qpc] at hi
+  have e : (stepRows_qpc rows col r (rows.getD pi []) pi)[i] =
+      (stepRows_qpc rows col r (rows.getD pi []) pi).getD i [] := by
+    generalize stepRows_qpc rows col r (rows.getD pi []) pi = L at hi
+    rw [List.getD_eq_getElem?_getD, List.getElem?_eq_getElem hi, Option.getD_some]
+  rw [e, stepRows_getD_qpc rows col r _ pi i hi']
+  by_cases h : i = r
+  · simp only [h, if_true, List.length_map]; exact hl _ hpi
+  · simp only [h, if_false, List.length_zipWith, List.length_map, hl _ hpi]
+    by_cases h2 : i = pi <;> simp only [h2, if_true, if_false] <;> rw [hl _ (by omega)] <;> simp
+
+/-- `z` (with `n + 1` relevant entries) is annihilated by every row -/
+def KerRows_qpc (n : Nat) (rows : List (List α)) (z : Nat → α) : Prop :=
+  ∀ i, i < rows.length → ∑ j ∈ Finset.range (n + 1), ent_qpc rows i j * z j = 0
+
+/-- the first `r` columns are the first `r` columns of the identity -/
+def IdBlock_qpc (r : Nat) (rows : List (List α)) : Prop :=
+  ∀ i, i < rows.length → ∀ j, j < r → ent_qpc rows i j = if i = j then 1 else 0
+
+theorem sum_elim_qpc (s : Finset Nat) (a p z : Nat → α) (c pv : α) :
+    ∑ j ∈ s, (a j - c * (p j / pv)) * z j =
+      ∑ j ∈ s, a j * z j - c * ((∑ j ∈ s, p j * z j) / pv) := by
+  rw [div_eq_mul_inv, Finset.sum_mul, Finset.mul_sum, ← Finset.sum_sub_distrib]
+  apply Finset.sum_congr rfl
+  intro j _
+  ring
+
+theorem sum_norm_qpc (s : Finset Nat) (p z : Nat → α) (pv : α) :
+    ∑ j ∈ s, (p j / pv) * z j = (∑ j ∈ s, p j * z j) / pv := by
+  rw [div_eq_mul_inv, Finset.sum_mul]
+  apply Finset.sum_congr rfl
+  intro j _
+  ring
+
+/-- the elimination step only performs invertible row operations: the kernel does not grow -/
+theorem stepRows_ker_qpc (rows : List (List α)) (n col r pi : Nat)
+    (hlen : ∀ row ∈ rows, row.length = n + 1) (hr : r ≤ pi) (hpi : pi < rows.length)
+    (hpv : ent_qpc rows pi col ≠ 0) (z : Nat → α)
+    (hz : KerRows_qpc n (stepRows_qpc rows col r (rows.getD pi []) pi) z) : KerRows_qpc n rows z := by
+  have key : ∀ i, i < rows.length →
+      ∑ j ∈ Finset.range (n + 1),
+        (if i = r then ent_qpc rows pi j / ent_qpc rows pi col
+        else (if i = pi then ent_qpc rows r j else ent_qpc rows i j) -
+          (if i = pi then ent_qpc rows r col else ent_qpc rows i col) *
+            (ent_qpc rows pi j / ent_qpc rows pi col)) * z j = 0 := by
+    intro i hi
+    rw [← hz i (by rwa [stepRows_length_qpc])]
+    apply Finset.sum_congr rfl
+    intro j hj
+    rw [stepRows_ent_qpc rows n col r pi hlen hr hpi i j hi (Finset.mem_range.mp hj)]
+  have hSpi : ∑ j ∈ Finset.range (n + 1), ent_qpc rows pi j * z j = 0 := by
+    have := key r (by omega)
+    simp only [if_true] at this
+    rw [sum_norm_qpc] at this
+    rcases div_eq_zero_iff.mp this with h | h
+    · exact h
+    · exact absurd h hpv
+  have key2 : ∀ i, i < rows.length → i ≠ r →
+      ∑ j ∈ Finset.range (n + 1), (if i = pi then ent_qpc rows r j else ent_qpc rows i j) * z j = 0 := by
+    intro i hi hne
+    have := key i hi
+    simp only [hne, if_false] at this
+    rw [sum_elim_qpc, hSpi] at this
+    simpa using this
+  intro i hi
+  by_cases h1 : i = pi
+  · rw [h1]; exact hSpi
+  · by_cases h2 : i = r
+    · have := key2 pi hpi (by omega)
+      simp only [if_true] at this
+      rw [h2]; exact this
+    · have := key2 i hi h2
+      simpa only [h1, if_false] using this
+
+theorem stepRows_idBlock_qpc (rows : List (List α)) (n r pi : Nat)
+    (hlen : ∀ row ∈ rows, row.length = n + 1) (hr : r ≤ pi) (hpi : pi < rows.length) (hrn : r < n + 1)
+    (hpv : ent_qpc rows pi r ≠ 0) (hid : IdBlock_qpc r rows) :
+    IdBlock_qpc (r + 1) (stepRows_qpc rows r r (rows.getD pi []) pi) := by
+  intro i hi j hj
+  rw [stepRows_length_qpc] at hi
+  rw [stepRows_ent_qpc rows n r r pi hlen hr hpi i j hi (by omega)]
+  by_cases hjr : j = r
+  · subst hjr
+    by_cases h : i = j
+    · simp [h, div_self hpv]
+    · simp [h, div_self hpv]
+  · have hj' : j < r := by omega
+    have hpij : ent_qpc rows pi j = 0 := by
+      rw [hid pi hpi j hj']; simp; omega
+    rw [hpij]
+    by_cases h : i = r
+    · have : ¬ i = j := by omega
+      simp [h, this]
+      omega
+    · simp only [h, if_false, zero_div, mul_zero, sub_zero]
+      by_cases h2 : i = pi
+      · simp only [h2, if_true]
+        rw [hid r (by omega) j hj']
+        have : ¬ pi = j := by omega
+        have h3 : ¬ r = j := by omega
+        simp [this, h3]
+      · simp only [h2, if_false]
+        exact hid i hi j hj'
+
+/-- if column `r` has no pivot below the identity block, there is a kernel vector with `z r = 1`
+    supported on the first `r + 1` coordinates -/
+theorem nopivot_ker_qpc (rows : List (List α)) (n r : Nat) (hrn : r < n)
+    (hid : IdBlock_qpc r rows)
+    (hz0 : ∀ i, r ≤ i → i < rows.length → ent_qpc rows i r = 0) :
+    ∃ z : Nat → α, z r = 1 ∧ z n = 0 ∧ KerRows_qpc n rows z := by
+  refine ⟨fun j => if j < r then -(ent_qpc rows j r) else if j = r then 1 else 0, ?_, ?_, ?_⟩
+  · simp
+  · have h1 : ¬ n < r := by omega
+    have h2 : ¬ n = r := by omega
+    simp [h1, h2]
+  · intro i hi
+    by_cases hir : i < r
+    · have hterm : ∀ j ∈ Finset.range (n + 1),
+          ent_qpc rows i j * (if j < r then -(ent_qpc rows j r) else if j = r then 1 else 0) =
+            (if j = i then -(ent_qpc rows i r) else 0) + (if j = r then ent_qpc rows i r else 0) := by
+        intro j _
+        by_cases hj : j < r
+        · have hne : ¬ j = r := by omega
+          rw [hid i hi j hj]
+          by_cases hij : i = j
+          · subst hij; simp [hj, hne]
+          · have : ¬ j = i := fun h => hij h.symm
+            simp [hj, hne, hij, this]
+        · by_cases hjr : j = r
+          · have : ¬ r = i := by omega
+            subst hjr; simp [this]
+          · have : ¬ j = i := by omega
+            simp [hj, hjr, this]
+      rw [Finset.sum_congr rfl hterm, Finset.sum_add_distrib, Finset.sum_ite_eq',
+        Finset.sum_ite_eq']
+      have m1 : i ∈ Finset.range (n + 1) := Finset.mem_range.mpr (by omega)
+      have m2 : r ∈ Finset.range (n + 1) := Finset.mem_range.mpr (by omega)
+      simp [m1, m2]
+    · apply Finset.sum_eq_zero
+      intro j _
+      by_cases hj : j < r
+      · rw [hid i hi j hj]
+        have : ¬ i = j := by omega
+        simp [this]
+      · by_cases hjr : j = r
+        · subst hjr
+          rw [hz0 i (by omega) hi]; simp
+        · simp [hj, hjr]
+
+/-- once the identity block is complete, the last column is a solution -/
+theorem readoff_ker_qpc (rows : List (List α)) (n : Nat) (hlen : rows.length = n)
+    (hid : IdBlock_qpc n rows) :
+    KerRows_qpc n rows (fun j => if j < n then ent_qpc rows j n else -1) := by
+  intro i hi
+  rw [Finset.sum_range_succ]
+  have hterm : ∀ j ∈ Finset.range n,
+      ent_qpc rows i j * (if j < n then ent_qpc rows j n else -1) =
+        if j = i then ent_qpc rows i n else 0 := by
+    intro j hj
+    have hj' := Finset.mem_range.mp hj
+    rw [hid i hi j hj']
+    by_cases hij : i = j
+    · subst hij; simp [hj']
+    · have : ¬ j = i := fun h => hij h.symm
+      simp [hij, this]
+  rw [Finset.sum_congr rfl hterm, Finset.sum_ite_eq']
+  have m1 : i ∈ Finset.range n := Finset.mem_range.mpr (by omega)
+  simp [m1]
+
+/-- the pivot list produced when every column has a pivot -/
+def diagPivots_qpc : Nat → List (Nat × Nat)
+  | 0 => []
+  | r + 1 => (r, r) :: diagPivots_qpc r
+
+theorem diagPivots_length_qpc : ∀ r, (diagPivots_qpc r).length = r
+  | 0 => rfl
+  | r + 1 => by simp [diagPivots_qpc, diagPivots_length_qpc r]
+
+theorem diagPivots_find_qpc : ∀ (r c : Nat), c < r →
+    (diagPivots_qpc r).find? (·.1 == c) = some (c, c)
+  | 0, c, h => by omega
+  | r + 1, c, h => by
+    by_cases hc : r = c
+    · subst hc; simp [diagPivots_qpc]
+    · have : (r == c) = false := by simpa using hc
+      simp only [diagPivots_qpc, List.find?_cons, this]
+      exact diagPivots_find_qpc r c (by omega)
+
+/-- invariant of `solve.go` on a system with trivial kernel -/
+def GoInv_qpc (n : Nat) (aug : List (List α)) (r : Nat) (rows : List (List α)) : Prop :=
+  rows.length = n ∧ (∀ row ∈ rows, row.length = n + 1) ∧
+    (∀ z, KerRows_qpc n rows z → KerRows_qpc n aug z) ∧ IdBlock_qpc r rows
+
+theorem go_full_qpc (n : Nat) (aug : List (List α))
+    (hker : ∀ z : Nat → α, KerRows_qpc n aug z → z n = 0 → ∀ j, j < n → z j = 0) :
+    ∀ (fuel r : Nat) (rows : List (List α)), r ≤ n → n - r < fuel → GoInv_qpc n aug r rows →
+      ∃ rows', solve.go n fuel r r rows (diagPivots_qpc r) = (rows', diagPivots_qpc n) ∧
+        GoInv_qpc n aug n rows'
+  | 0, r, rows, _, h, _ => by omega
+  | fuel + 1, r, rows, hrn, hfuel, hinv => by
+    rw [solve.go]
+    by_cases hge : r ≥ n
+    · have : r = n := by omega
+      subst this
+      exact ⟨rows, by simp, hinv⟩
+    · simp only [hge, if_false]
+      obtain ⟨hlen, hrl, hk, hid⟩ := hinv
+      cases hf : (rows.zipIdx.drop r).find? (fun p => p.1.getD r 0 ≠ 0) with
+      | none =>
+        exfalso
+        obtain ⟨z, hz1, hz2, hz3⟩ := nopivot_ker_qpc rows n r (by omega) hid
+          (fun i hri hi => find_none_qpc rows r r hf i hri hi)
+        have := hker z (hk z hz3) hz2 r (by omega)
+        rw [hz1] at this
+        exact one_ne_zero this
+      | some p =>
+        obtain ⟨prow, pi⟩ := p
+        obtain ⟨h1, h2, h3, h4⟩ := find_some_qpc rows r r prow pi hf
+        rw [elimStep_some_qpc rows r r prow pi hf]
+        simp only [if_true]
+        subst h3
+        have hpv : ent_qpc rows pi r ≠ 0 := h4
+        apply go_full_qpc n aug hker fuel (r + 1) _ (by omega) (by omega)
+        refine ⟨by rw [stepRows_length_qpc, hlen], stepRows_rowlen_qpc rows n r r pi hrl h1 h2, ?_,
+          stepRows_idBlock_qpc rows n r pi hrl h1 h2 (by omega) hpv hid⟩
+        intro z hz
+        exact hk z (stepRows_ker_qpc rows n r r pi hrl h1 h2 hpv z hz)
+
+theorem aug_length_qpc (A : Mat α) (b : Vec α) (n : Nat) (hA : A.length = n) (hb : b.length = n) :
+    (List.zipWith (fun row bi => row ++ [bi]) A b).length = n := by
+  simp [hA, hb]
+
+theorem aug_getD_qpc (A : Mat α) (b : Vec α) (n : Nat) (hA : A.length = n) (hb : b.length = n)
+    (i : Nat) (hi : i < n) :
+    (List.zipWith (fun row bi => row ++ [bi]) A b).getD i [] = A.getD i [] ++ [b.getD i 0] := by
+  simp [List.getD_eq_getElem?_getD, List.getElem?_zipWith,
+    List.getElem?_eq_getElem (show i < A.length by omega),
+    List.getElem?_eq_getElem (show i < b.length by omega)]
+
+theorem aug_ent_qpc (A : Mat α) (b : Vec α) (n : Nat) (hA : A.length = n)
+    (hrow : ∀ row ∈ A, row.length = n) (hb : b.length = n) (i : Nat) (hi : i < n) (j : Nat) :
+    ent_qpc (List.zipWith (fun row bi => row ++ [bi]) A b) i j =
+      if j < n then ent_qpc A i j else if j = n then b.getD i 0 else 0 := by
+  have hl : (A.getD i []).length = n := hrow _ (getD_mem_qpc A [] i (by omega))
+  rw [ent_qpc, aug_getD_qpc A b n hA hb i hi, List.getD_eq_getElem?_getD]
+  by_cases hj : j < n
+  · rw [List.getElem?_append_left (by omega)]
+    simp [hj, ent_qpc, List.getD_eq_getElem?_getD]
+  · rw [List.getElem?_append_right (by omega), hl]
+    by_cases hjn : j = n
+    · simp [hjn]
+    · have : j - n = (j - n - 1) + 1 := by omega
+      rw [this]
+      simp [hj, hjn]
+
+/-- Gauss–Jordan succeeds on a square system with trivial kernel and returns a solution -/
+theorem solve_complete_qpc (A : Mat α) (b : Vec α) (n : Nat) (hA : A.length = n)
+    (hrow : ∀ row ∈ A, row.length = n) (hb : b.length = n)
+    (hker : ∀ y : Nat → α, (∀ i, i < n → ∑ j ∈ Finset.range n, ent_qpc A i j * y j = 0) →
+      ∀ j, j < n → y j = 0) :
+    ∃ x, solve A b n = some x ∧ x.length = n ∧
+      ∀ i, i < n → ∑ j ∈ Finset.range n, ent_qpc A i j * x.getD j 0 = b.getD i 0 := by
+  have haugl := aug_length_qpc A b n hA hb
+  have hauge := aug_ent_qpc A b n hA hrow hb
+  -- kernel vectors of the augmented matrix
+  have hkaug : ∀ z : Nat → α, KerRows_qpc n (List.zipWith (fun row bi => row ++ [bi]) A b) z →
+      ∀ i, i < n → ∑ j ∈ Finset.range n, ent_qpc A i j * z j + b.getD i 0 * z n = 0 := by
+    intro z hz i hi
+    have := hz i (by omega)
+    rw [Finset.sum_range_succ] at this
+    refine Eq.trans ?_ this
+    congr 1
+    · apply Finset.sum_congr rfl
+      intro j hj
+      rw [hauge i hi j, if_pos (Finset.mem_range.mp hj)]
+    · rw [hauge i hi n, if_neg (lt_irrefl n), if_pos rfl]
+  have hker' : ∀ z : Nat → α, KerRows_qpc n (List.zipWith (fun row bi => row ++ [bi]) A b) z →
+      z n = 0 → ∀ j, j < n → z j = 0 := by
+    intro z hz hzn
+    apply hker z
+    intro i hi
+    have := hkaug z hz i hi
+    rwa [hzn, mul_zero, add_zero] at this
+  have hinv0 : GoInv_qpc n (List.zipWith (fun row bi => row ++ [bi]) A b) 0
+      (List.zipWith (fun row bi => row ++ [bi]) A b) := by
+    refine ⟨haugl, ?_, fun z hz => hz, fun i _ j hj => by omega⟩
+    intro row hr
+    obtain ⟨i, hi, rfl⟩ := List.mem_iff_getElem.mp hr
+    have hi1 : i < A.length := by simp at hi; omega
+    rw [List.getElem_zipWith]
+    simp [hrow _ (List.getElem_mem hi1)]
+  obtain ⟨rows', hgo, hlen', hrl', hk', hid'⟩ :=
+    go_full_qpc n _ hker' (n + 1) 0 _ (by omega) (by omega) hinv0
+  have hx : solve A b n = some ((List.range n).map fun c => ent_qpc rows' c n) := by
+    unfold solve
+    simp only [diagPivots_qpc] at hgo
+    simp only [hgo, diagPivots_length_qpc]
+    rw [List.drop_of_length_le (by omega)]
+    simp only [List.any_nil, Bool.false_eq_true, if_false, Option.some.injEq]
+    apply List.map_congr_left
+    intro c hc
+    rw [diagPivots_find_qpc n c (List.mem_range.mp hc)]
+    rfl
+  refine ⟨_, hx, by simp, fun i hi => ?_⟩
+  have hz := hkaug _ (hk' _ (readoff_ker_qpc rows' n hlen' hid')) i hi
+  simp only [lt_irrefl, if_false] at hz
+  have e : ∑ j ∈ Finset.range n, ent_qpc A i j * ((List.range n).map fun c => ent_qpc rows' c n).getD j 0 =
+      ∑ j ∈ Finset.range n, ent_qpc A i j * (if j < n then ent_qpc rows' j n else -1) := by
+    apply Finset.sum_congr rfl
+    intro j hj
+    have hj' := Finset.mem_range.mp hj
+    simp [List.getD_eq_getElem?_getD, List.getElem?_range hj', hj']
+  rw [e, eq_neg_of_add_eq_zero_left hz]
+  simp
+
 end gauss
+
+/-! ### Part 2: the active set of the KKT point yields the KKT point -/
+section candidate
+variable {α : Type} [Field α] [LinearOrder α] [IsStrictOrderedRing α]
+
+theorem sum_range_getD_qpc (F : Nat → α) : ∀ (l : List Nat),
+    ∑ c ∈ Finset.range l.length, F (l.getD c 0) = (l.map F).sum
+  | [] => by simp
+  | a :: l => by
+    rw [List.length_cons, Finset.sum_range_succ', List.map_cons, List.sum_cons,
+      ← sum_range_getD_qpc F l]
+    simp [add_comm]
+
+theorem sum_filter_split_qpc (p : Nat → Bool) (g : Nat → α) : ∀ (l : List Nat),
+    (l.map g).sum = ((l.filter fun i => !p i).map g).sum + ((l.filter p).map g).sum
+  | [] => by simp
+  | a :: l => by
+    rw [List.map_cons, List.sum_cons, sum_filter_split_qpc p g l]
+    cases h : p a
+    · simp [h, add_assoc]
+    · simp [h, add_left_comm]
+
+theorem sum_map_range_qpc (g : Nat → α) : ∀ (m : Nat),
+    ((List.range m).map g).sum = ∑ j ∈ Finset.range m, g j
+  | 0 => by simp
+  | m + 1 => by
+    rw [List.sum_range_succ, Finset.sum_range_succ, sum_map_range_qpc g m]
+
+theorem foldl_sub_qpc (h : Nat → α) : ∀ (l : List Nat) (acc : α),
+    l.foldl (fun acc j => acc - h j) acc = acc - (l.map h).sum
+  | [], acc => by simp
+  | a :: l, acc => by
+    rw [List.foldl_cons, foldl_sub_qpc h l, List.map_cons, List.sum_cons]
+    ring
+
+/-- splitting a sum over `0..m-1` into free and active indices -/
+theorem sum_split_qpc (m : Nat) (p : Nat → Bool) (g : Nat → α) :
+    ∑ j ∈ Finset.range m, g j =
+      ∑ c ∈ Finset.range ((List.range m).filter fun i => !p i).length,
+          g (((List.range m).filter fun i => !p i).getD c 0) +
+        (((List.range m).filter p).map g).sum := by
+  rw [sum_range_getD_qpc, ← sum_filter_split_qpc, sum_map_range_qpc]
+
+theorem zipIdx_find_qpc : ∀ (l : List Nat) (s k : Nat) (hk : k < l.length), l.Nodup →
+    (l.zipIdx s).find? (·.1 == l[k]) = some (l[k], s + k)
+  | [], _, _, hk, _ => by simp at hk
+  | a :: l, s, 0, _, _ => by simp [List.zipIdx_cons]
+  | a :: l, s, k + 1, hk, hnd => by
+    have hk' : k < l.length := by simpa using hk
+    have hne : a ≠ l[k] := by
+      intro h
+      have := (List.nodup_cons.mp hnd).1
+      exact this (h ▸ List.getElem_mem hk')
+    have hb : (a == l[k]) = false := by simpa using hne
+    simp only [List.zipIdx_cons, List.getElem_cons_succ, List.find?_cons, hb]
+    rw [zipIdx_find_qpc l (s + 1) k hk' (List.nodup_cons.mp hnd).2]
+    congr 2
+    omega
+
+theorem dot_range_qpc (m : Nat) (x y : Vec α) (h : y.length ≤ m) :
+    dot x y = ∑ j ∈ Finset.range m, x.getD j 0 * y.getD j 0 := by
+  rw [dot_eq_sum_right m x y h, Finset.sum_range]
+
+def candA_qpc (G : Mat α) (free : List Nat) : Mat α :=
+  free.map fun i => free.map fun j => (G.getD i []).getD j 0
+
+def candB_qpc (G : Mat α) (u : Vec α) (free actl : List Nat) : Vec α :=
+  free.map fun i => actl.foldl (fun acc j => acc - (G.getD i []).getD j 0 * u.getD j 0) 0
+
+def assemble_qpc (u : Vec α) (act : List Bool) (free : List Nat) (x : Vec α) : Vec α :=
+  (List.range u.length).map fun i =>
+    if act.getD i false then u.getD i 0
+    else match free.zipIdx.find? (·.1 == i) with
+      | some (_, k) => x.getD k 0
+      | none => 0
+
+/-- free / active indices of an active-set predicate -/
+def freeL_qpc (m : Nat) (p : Nat → Bool) : List Nat := (List.range m).filter fun i => !p i
+def actL_qpc (m : Nat) (p : Nat → Bool) : List Nat := (List.range m).filter p
+
+theorem qpCandidate_unfold_qpc (G : Mat α) (u : Vec α) (act : List Bool) :
+    qpCandidate G u act =
+      match solve (candA_qpc G (freeL_qpc u.length fun i => act.getD i false))
+        (candB_qpc G u (freeL_qpc u.length fun i => act.getD i false)
+          (actL_qpc u.length fun i => act.getD i false))
+        (freeL_qpc u.length fun i => act.getD i false).length with
+      | none => none
+      | some x => some (assemble_qpc u act (freeL_qpc u.length fun i => act.getD i false) x) := rfl
+
+
+theorem mem_freeL_qpc (m : Nat) (p : Nat → Bool) (i : Nat) :
+    i ∈ freeL_qpc m p ↔ i < m ∧ p i = false := by
+  simp [freeL_qpc, List.mem_filter, List.mem_range]
+
+theorem mem_actL_qpc (m : Nat) (p : Nat → Bool) (i : Nat) :
+    i ∈ actL_qpc m p ↔ i < m ∧ p i = true := by
+  simp [actL_qpc, List.mem_filter, List.mem_range]
+
+theorem freeL_nodup_qpc (m : Nat) (p : Nat → Bool) : (freeL_qpc m p).Nodup :=
+  List.Nodup.filter _ List.nodup_range
+
+theorem sum_split'_qpc (m : Nat) (p : Nat → Bool) (g : Nat → α) :
+    ∑ j ∈ Finset.range m, g j =
+      ∑ c ∈ Finset.range (freeL_qpc m p).length, g ((freeL_qpc m p).getD c 0) +
+        ((actL_qpc m p).map g).sum := sum_split_qpc m p g
+
+theorem dot_range_left_qpc (m : Nat) (x y : Vec α) (h : x.length ≤ m) :
+    dot x y = ∑ j ∈ Finset.range m, x.getD j 0 * y.getD j 0 := by
+  rw [dot_eq_sum_left m x y h, Finset.sum_range]
+
+theorem candA_ent_qpc (G : Mat α) (free : List Nat) (a c : Nat) (ha : a < free.length)
+    (hc : c < free.length) :
+    ent_qpc (candA_qpc G free) a c = ent_qpc G (free.getD a 0) (free.getD c 0) := by
+  simp [ent_qpc, candA_qpc, List.getD_eq_getElem?_getD, List.getElem?_eq_getElem ha,
+    List.getElem?_eq_getElem hc]
+
+theorem candB_getD_qpc (G : Mat α) (u : Vec α) (free actl : List Nat) (a : Nat)
+    (ha : a < free.length) :
+    (candB_qpc G u free actl).getD a 0 =
+      -((actl.map fun j => ent_qpc G (free.getD a 0) j * u.getD j 0).sum) := by
+  have : (candB_qpc G u free actl).getD a 0 =
+      actl.foldl (fun acc j => acc - ent_qpc G (free.getD a 0) j * u.getD j 0) 0 := by
+    simp [candB_qpc, ent_qpc, List.getD_eq_getElem?_getD, List.getElem?_eq_getElem ha]
+  rw [this, foldl_sub_qpc, zero_sub]
+
+/-- the principal submatrix of a positive definite matrix has trivial kernel -/
+theorem cand_ker_qpc (G : Mat α) (m : Nat) (hpd : PosDef G m) (p : Nat → Bool) (y : Nat → α)
+    (hy : ∀ a, a < (freeL_qpc m p).length →
+      ∑ c ∈ Finset.range (freeL_qpc m p).length,
+        ent_qpc G ((freeL_qpc m p).getD a 0) ((freeL_qpc m p).getD c 0) * y c = 0) :
+    ∀ c, c < (freeL_qpc m p).length → y c = 0 := by
+  have hnd := freeL_nodup_qpc m p
+  have hmem := mem_freeL_qpc m p
+  generalize hfr : freeL_qpc m p = free at hy hnd hmem ⊢
+  let v : Vec α := (List.range m).map fun i => if i ∈ free then y (free.idxOf i) else 0
+  have hvl : v.length = m := by simp [v]
+  have hvget : ∀ i, i < m → v.getD i 0 = if i ∈ free then y (free.idxOf i) else 0 := by
+    intro i hi
+    simp only [v, List.getD_eq_getElem?_getD, List.getElem?_map, List.getElem?_range hi]
+    rfl
+  have hvfree : ∀ c, c < free.length → v.getD (free.getD c 0) 0 = y c := by
+    intro c hc
+    have hm := getD_mem_qpc free 0 c hc
+    rw [hvget _ ((hmem _).mp hm).1, if_pos hm]
+    congr 1
+    rw [List.getD_eq_getElem?_getD, List.getElem?_eq_getElem hc, Option.getD_some]
+    exact List.Nodup.idxOf_getElem hnd c hc
+  have hvact : ∀ j, j ∈ actL_qpc m p → v.getD j 0 = 0 := by
+    intro j hj
+    obtain ⟨hjm, hpj⟩ := (mem_actL_qpc m p j).mp hj
+    rw [hvget j hjm, if_neg]
+    intro h
+    have := ((hmem j).mp h).2
+    rw [hpj] at this
+    exact absurd this (by simp)
+  have hinner : ∀ i, ∑ j ∈ Finset.range m, ent_qpc G i j * v.getD j 0 =
+      ∑ c ∈ Finset.range free.length, ent_qpc G i (free.getD c 0) * y c := by
+    intro i
+    rw [sum_split'_qpc m p, hfr, List.sum_eq_zero, add_zero]
+    · apply Finset.sum_congr rfl
+      intro c hc
+      rw [hvfree c (Finset.mem_range.mp hc)]
+    · intro x hx
+      obtain ⟨j, hj, rfl⟩ := List.mem_map.mp hx
+      rw [hvact j hj, mul_zero]
+  have hqf : qf G v = 0 := by
+    rw [qf, dot_range_left_qpc m v _ hvl.le]
+    apply Finset.sum_eq_zero
+    intro i hi
+    have hi' := Finset.mem_range.mp hi
+    rw [matVec_getD, dot_range_qpc m _ v hvl.le]
+    have e : ∑ j ∈ Finset.range m, (G.getD i []).getD j 0 * v.getD j 0 =
+        ∑ j ∈ Finset.range m, ent_qpc G i j * v.getD j 0 := rfl
+    rw [e, hinner i]
+    by_cases hif : i ∈ free
+    · obtain ⟨a, ha, rfl⟩ := List.mem_iff_getElem.mp hif
+      have := hy a ha
+      rw [List.getD_eq_getElem?_getD, List.getElem?_eq_getElem ha, Option.getD_some] at this
+      rw [this, mul_zero]
+    · rw [hvget i hi', if_neg hif, zero_mul]
+  intro c hc
+  by_contra hne
+  have hpos := hpd v hvl ⟨v.getD (free.getD c 0) 0, getD_mem_qpc v 0 _ (by
+    rw [hvl]; exact ((hmem _).mp (getD_mem_qpc free 0 c hc)).1), by rw [hvfree c hc]; exact hne⟩
+  rw [hqf] at hpos
+  exact lt_irrefl _ hpos
+
+/-- if `w` agrees with `u` on the active set and `(G w)_i = 0` on the free set, the candidate built
+    for this active set is `w` -/
+theorem qpCandidate_eq_qpc (G : Mat α) (m : Nat) (hpd : PosDef G m) (u w : Vec α)
+    (hu : u.length = m) (hw : w.length = m) (act : List Bool)
+    (hact : ∀ i, i < m → act.getD i false = true → w.getD i 0 = u.getD i 0)
+    (hfree : ∀ i, i < m → act.getD i false = false →
+      ∑ j ∈ Finset.range m, ent_qpc G i j * w.getD j 0 = 0) :
+    qpCandidate G u act = some w := by
+  subst hu
+  rw [qpCandidate_unfold_qpc]
+  generalize hp : (fun i => act.getD i false) = p
+  have hpi : ∀ i, act.getD i false = p i := fun i => by rw [← hp]
+  have hmemF := mem_freeL_qpc u.length p
+  have hmemA := mem_actL_qpc u.length p
+  have hnd := freeL_nodup_qpc u.length p
+  have hsplit := sum_split'_qpc (α := α) u.length p
+  have hkerF := cand_ker_qpc G u.length hpd p
+  generalize freeL_qpc u.length p = free at *
+  generalize actL_qpc u.length p = actl at *
+  have hfl : ∀ c, c < free.length → free.getD c 0 < u.length ∧ p (free.getD c 0) = false :=
+    fun c hc => (hmemF _).mp (getD_mem_qpc free 0 c hc)
+  have hker : ∀ y : Nat → α, (∀ a, a < free.length →
+      ∑ c ∈ Finset.range free.length, ent_qpc (candA_qpc G free) a c * y c = 0) →
+      ∀ c, c < free.length → y c = 0 := by
+    intro y hy
+    apply hkerF y
+    intro a ha
+    rw [← hy a ha]
+    apply Finset.sum_congr rfl
+    intro c hc
+    rw [candA_ent_qpc G free a c ha (Finset.mem_range.mp hc)]
+  obtain ⟨x, hx, hxl, hxs⟩ := solve_complete_qpc (candA_qpc G free) (candB_qpc G u free actl)
+    free.length (by simp [candA_qpc])
+    (by
+      intro row hrow
+      simp only [candA_qpc, List.mem_map] at hrow
+      obtain ⟨i, _, rfl⟩ := hrow
+      simp)
+    (by simp [candB_qpc]) hker
+  have hxs' : ∀ a, a < free.length →
+      ∑ c ∈ Finset.range free.length,
+        ent_qpc (candA_qpc G free) a c * (free.map fun i => w.getD i 0).getD c 0 =
+      (candB_qpc G u free actl).getD a 0 := by
+    intro a ha
+    obtain ⟨h1, h2⟩ := hfl a ha
+    have h0 := hfree _ h1 (by rw [hpi]; exact h2)
+    rw [hsplit] at h0
+    rw [candB_getD_qpc G u free actl a ha]
+    have e1 : (actl.map fun j => ent_qpc G (free.getD a 0) j * w.getD j 0) =
+        actl.map fun j => ent_qpc G (free.getD a 0) j * u.getD j 0 := by
+      apply List.map_congr_left
+      intro j hj
+      obtain ⟨hj1, hj2⟩ := (hmemA j).mp hj
+      rw [hact j hj1 (by rw [hpi]; exact hj2)]
+    rw [e1] at h0
+    rw [← eq_neg_of_add_eq_zero_left h0]
+    apply Finset.sum_congr rfl
+    intro c hc
+    have hc' := Finset.mem_range.mp hc
+    rw [candA_ent_qpc G free a c ha hc']
+    simp [List.getD_eq_getElem?_getD, List.getElem?_eq_getElem hc']
+  have hxeq : x = free.map fun i => w.getD i 0 := by
+    apply List.ext_getElem (by simp [hxl])
+    intro c h1 h2
+    have hc : c < free.length := by omega
+    have : x.getD c 0 - (free.map fun i => w.getD i 0).getD c 0 = 0 :=
+      hker (fun c => x.getD c 0 - (free.map fun i => w.getD i 0).getD c 0) (by
+        intro a ha
+        simp only [mul_sub, Finset.sum_sub_distrib]
+        rw [hxs a ha, hxs' a ha, sub_self]) c hc
+    rw [getD_eq_getElem_qpc _ _ _ h1, getD_eq_getElem_qpc _ _ _ h2] at this
+    exact sub_eq_zero.mp this
+  rw [hx]
+  simp only [Option.some.injEq]
+  apply List.ext_getElem (by simp [assemble_qpc, hw])
+  intro i h1 h2
+  have hi : i < u.length := by simpa [assemble_qpc] using h1
+  simp only [assemble_qpc, List.getElem_map, List.getElem_range]
+  by_cases hpa : act.getD i false = true
+  · rw [if_pos hpa, ← hact i hi hpa, List.getD_eq_getElem?_getD, List.getElem?_eq_getElem h2,
+      Option.getD_some]
+  · rw [if_neg hpa]
+    have hpf : p i = false := by rw [← hpi]; simpa using hpa
+    obtain ⟨a, ha, rfl⟩ := List.mem_iff_getElem.mp ((hmemF i).mpr ⟨hi, hpf⟩)
+    rw [zipIdx_find_qpc free 0 a ha hnd]
+    simp only [zero_add, hxeq]
+    simp [List.getD_eq_getElem?_getD, List.getElem?_eq_getElem ha, List.getElem?_eq_getElem h2]
+
+end candidate
+
+/-! ### Part 3: completeness of the search -/
+section complete
+variable {α : Type} [Field α] [LinearOrder α] [IsStrictOrderedRing α]
+
+/-- `subsetsBool n` enumerates every Boolean list of length `n` -/
+theorem mem_subsetsBool_qpc : ∀ (n : Nat) (l : List Bool), l.length = n → l ∈ subsetsBool n
+  | 0, l, h => by
+    have : l = [] := List.length_eq_zero_iff.mp h
+    simp [subsetsBool, this]
+  | n + 1, [], h => by simp at h
+  | n + 1, b :: l, h => by
+    have ih := mem_subsetsBool_qpc n l (by simpa using h)
+    rw [subsetsBool, List.mem_flatMap]
+    refine ⟨l, ih, ?_⟩
+    cases b <;> simp
+
+theorem vsub_getD_qpc (x y : Vec α) (h : x.length = y.length) (i : Nat) :
+    (vsub x y).getD i 0 = x.getD i 0 - y.getD i 0 :=
+  congrFun (toFn_vsub (i + 1) x y h) ⟨i, Nat.lt_succ_self i⟩
+
+/-- complementary slackness, index by index: off the active set `(G w)_i = 0` -/
+theorem kkt_free_zero_qpc (G : Mat α) (m : Nat) (u w : Vec α) (hu : u.length = m)
+    (hk : kktCheck G u w = true) (i : Nat) (hi : i < m) (hne : w.getD i 0 ≠ u.getD i 0) :
+    ∑ j ∈ Finset.range m, ent_qpc G i j * w.getD j 0 = 0 := by
+  obtain ⟨h1, _, h3, h4, h5⟩ := kktCheck_spec G u w hk
+  have hw : w.length = m := by omega
+  have e : ∑ j ∈ Finset.range m, ent_qpc G i j * w.getD j 0 = dot (G.getD i []) w :=
+    (dot_range_qpc m _ w hw.le).symm
+  rw [e]
+  rw [dot_range_left_qpc m (vsub w u) _ (by rw [vsub_length _ _ (by omega)]; omega)] at h5
+  have hnn : ∀ k ∈ Finset.range m, 0 ≤ (vsub w u).getD k 0 * (matVec G w).getD k 0 := by
+    intro k hk'
+    have hk'' := Finset.mem_range.mp hk'
+    rw [vsub_getD_qpc w u (by omega), matVec_getD]
+    exact mul_nonneg (sub_nonneg.mpr (h3.2 k (by omega))) (h4 k (by omega))
+  have := (Finset.sum_eq_zero_iff_of_nonneg hnn).mp h5 i (Finset.mem_range.mpr hi)
+  rw [vsub_getD_qpc w u (by omega), matVec_getD] at this
+  rcases mul_eq_zero.mp this with h | h
+  · exact absurd (sub_eq_zero.mp h) hne
+  · exact h
+
+/-- COMPLETENESS of the certified active-set search: on a symmetric positive definite `G` it never
+    fails -/
+theorem qpProject_complete (G : Mat α) (m : Nat) (hG : SymmSquare G m) (hpd : PosDef G m)
+    (u : Vec α) (hu : u.length = m) : ∃ w mg, qpProject G u = some (w, mg) := by
+  obtain ⟨w, hk, _⟩ := qp_exists_list G m hG hpd u hu
+  have hw : w.length = m := by
+    have := (kktCheck_spec G u w hk).1
+    omega
+  have hactD : ∀ i, i < m →
+      ((List.range m).map fun i => decide (w.getD i 0 = u.getD i 0)).getD i false =
+        decide (w.getD i 0 = u.getD i 0) := by
+    intro i hi
+    simp [List.getD_eq_getElem?_getD, List.getElem?_range hi]
+  have hcand : qpCandidate G u ((List.range m).map fun i => decide (w.getD i 0 = u.getD i 0)) =
+      some w := by
+    apply qpCandidate_eq_qpc G m hpd u w hu hw
+    · intro i hi h
+      rw [hactD i hi] at h
+      exact of_decide_eq_true h
+    · intro i hi h
+      rw [hactD i hi] at h
+      exact kkt_free_zero_qpc G m u w hu hk i hi (of_decide_eq_false h)
+  have hsome : (qpProject G u).isSome = true := by
+    unfold qpProject
+    rw [List.findSome?_isSome_iff]
+    refine ⟨_, mem_subsetsBool_qpc u.length
+      ((List.range m).map fun i => decide (w.getD i 0 = u.getD i 0)) (by simp [hu]), ?_⟩
+    rw [hcand]
+    simp [hk]
+  obtain ⟨⟨w', mg⟩, h⟩ := Option.isSome_iff_exists.mp hsome
+  exact ⟨w', mg, h⟩
+
+theorem dualprojWeights_complete (J : Mat α) (m n : Nat) (hJ : MatWF J m n) (s normEps regEps : α)
+    (hre : 0 < regEps) (u : Vec α) (hu : u.length = m) :
+    ∃ w mg, dualprojWeights J s normEps regEps u = some (w, mg) :=
+  qpProject_complete _ m (regNormGram_symmSquare J m n hJ s normEps regEps)
+    (regNormGram_pd J m n hJ s normEps regEps hre) u hu
+
+theorem upgradWeights_complete (J : Mat α) (m n : Nat) (hJ : MatWF J m n) (s normEps regEps : α)
+    (hre : 0 < regEps) (u : Vec α) (hu : u.length = m) :
+    ∃ w mg, upgradWeights J s normEps regEps u = some (w, mg) := by
+  unfold upgradWeights
+  simp only
+  rw [if_pos]
+  · exact ⟨_, _, rfl⟩
+  · rw [List.all_eq_true]
+    intro o ho
+    obtain ⟨i, _, rfl⟩ := List.mem_map.mp ho
+    obtain ⟨w, mg, h⟩ := qpProject_complete _ m (regNormGram_symmSquare J m n hJ s normEps regEps)
+      (regNormGram_pd J m n hJ s normEps regEps hre)
+      ((List.range u.length).map fun j => if j = i then u.getD i 0 else 0) (by simp [hu])
+    rw [h]
+    rfl
+
+/-- total correctness: the search returns (exactly) the unique minimiser -/
+theorem qpProject_total_qpc (G : Mat α) (m : Nat) (hG : SymmSquare G m) (hpd : PosDef G m)
+    (u : Vec α) (hu : u.length = m) :
+    ∃ w mg, qpProject G u = some (w, mg) ∧ IsQPMin G u w ∧ ∀ w', IsQPMin G u w' → w' = w := by
+  obtain ⟨w, mg, h⟩ := qpProject_complete G m hG hpd u hu
+  have hmin := qpProject_isQPMin G m hG hpd u w hu mg h
+  exact ⟨w, mg, h, hmin, fun w' hw' => isQPMin_unique G m hG hpd u w' w hu hw' hmin⟩
+
+end complete
 end Tjd.Agg
